@@ -247,7 +247,15 @@ Fixpoint prefixb (a b : list msg) {struct a} : bool :=
 Definition delivery_okb (log : list record) (start : Z) (delivered : list msg) : bool :=
   prefixb delivered (map msg_of (from start log)).
 
-(* C02 on one fetch: the messages are exactly the stored records in [offset, final) *)
+(* C02 on one fetch issued at [offset] that left Conn.offset = [final]: the messages are exactly
+   the stored records in [offset, final); when the offset moved backwards nothing was delivered
+   and no stored record lies in [final, offset) *)
 Definition fetch_okb (log : list record) (offset : Z) (ms : list msg) (final : Z) : bool :=
-  (offset <=? final) && prefixb ms (map msg_of (between offset final log))
-  && (length ms =? length (between offset final log))%nat.
+  if offset <=? final then
+    prefixb ms (map msg_of (between offset final log))
+    && (length ms =? length (between offset final log))%nat
+  else
+    match ms, between final offset log with
+    | [], [] => true
+    | _, _ => false
+    end.
